@@ -52,7 +52,7 @@ def run(spec, out):
     import einx
     import warnings
     from ..gen import cases as G
-    from ..gen.expr import pr, pr_desc, copy_expr, Ax, Num, Br, Flat, walk
+    from ..gen.expr import pr, pr_desc, copy_expr, Ax, Num, Br, Flat, Cat, Ell, walk
     from ..ref import solver as S
     from .. import hooks
     from ..util import FORBIDDEN, exc_site, einx_error_classes
@@ -246,7 +246,23 @@ def run(spec, out):
                     def names_of(e_):
                         return {n_.name for n_ in walk(e_) if isinstance(n_, Ax)} | {n_.uid for n_ in walk(e_) if isinstance(n_, Num) and n_.value != 1}
                     ns = [names_of(e_) for e_ in inputs]
-                    texts = [pr(e_) for e_ in inputs]
+                    def norm(items_):
+                        # '((k o))' and '(k o)' are the same expression: redundant nested parentheses do not make two inputs different
+                        res_ = []
+                        for n_ in items_:
+                            if isinstance(n_, Flat):
+                                inner_ = norm(n_.items)
+                                while len(inner_) == 1 and isinstance(inner_[0], Flat):
+                                    inner_ = inner_[0].items
+                                res_.append(Flat(inner_))
+                            elif isinstance(n_, (Br, Cat)):
+                                res_.append(type(n_)(norm(n_.items)))
+                            elif isinstance(n_, Ell):
+                                res_.append(Ell(norm(n_.items), n_.group, n_.anon))
+                            else:
+                                res_.append(n_)
+                        return res_
+                    texts = [pr(norm(e_)) for e_ in inputs]
                     parents = [i_ for i_ in range(len(ns)) if all(ns[j_] <= ns[i_] for j_ in range(len(ns)) if j_ != i_)]
                     if len(parents) == 0 or len({texts[i_] for i_ in parents}) > 1:
                         proof = "rule:implicit-output-not-unique"
